@@ -217,6 +217,9 @@ def run(ck):
               "a normal return is reached without any of the function's memory-range tests: pointers/lengths outside memory do not trap on that path", f.loc(und[0]) if und else f.loc())
     ck.floor("BOUNDS", "host functions with memory-range tests", nfn, 25)
 
+    # invalid handles never reach the tables (results follow the host interface: u32::MAX / error code for stale handles)
+    from .c15 import stale_handle_rules
+    stale_handle_rules(ck, c)
     # arguments arrive as 32/64-bit values: no host function narrows an argument below 32 bits before using it (a pointer,
     # length, offset or handle compared or used at 16 bits aliases values that differ by a multiple of 2^16)
     WID = {"u8": 8, "i8": 8, "u16": 16, "i16": 16, "u32": 32, "i32": 32, "u64": 64, "i64": 64, "usize": 64, "isize": 64}
